@@ -263,7 +263,7 @@ def check_case(ck, table, items, fin, stats, modes=("sync.render", "async.render
             elif k == "literal":
                 ok = same_value(got, litval)
             else:
-                ok = type(got) is str and got == text
+                ok = isinstance(got, str) and got == text  # a single Markup value is its own text
             if not ok:
                 want = {"none": "None", "identity": f"the value itself ({vals[0]!r})" if items else "",
                         "literal": f"the literal {litval!r}", "text": f"the text {text!r}"}[k]
@@ -271,6 +271,8 @@ def check_case(ck, table, items, fin, stats, modes=("sync.render", "async.render
         if what:
             ck.violation(case, f"NativeEnvironment {mode}{' finalize=' + fin if fin != 'none' else ''} on {src!r} with {case['context']}: {what}",
                          {"kind": "native", "mode": mode, "got": fp_got, "expected": exp["kind"],
+                          "detail": ("async-generator-not-iterable" if err is not None and "'async_generator' object is not iterable" in str(err)
+                                     else "unhashable" if err is not None and "unhashable" in str(err) else "-"),
                           "literal_eval_error": _lit_error(text) if not single else "-"})
         elif stats["renders"] % 701 == 0:
             ck.sample({"source": src, "context": case["context"], "mode": mode, "returned": repr(got), "rule": exp["kind"]})
@@ -376,7 +378,7 @@ def replay(ck, rec):
         got, err = None, e
     exp = c["expected"]["kind"]
     lit, litval, _ = literalness(c["text"])
-    ok = err is None and ((exp == "none" and got is None) or (exp == "text" and got == c["text"] and type(got) is str)
+    ok = err is None and ((exp == "none" and got is None) or (exp == "text" and got == c["text"] and isinstance(got, str))
                           or (exp == "literal" and same_value(got, litval)) or exp == "identity")
     if not ok:
         shown = repr(err) if err is not None else repr(got)
